@@ -569,6 +569,16 @@ Error RACFGBuilder::move_reg_to_stack_arg(InvokeNode* invoke_node, const FuncVal
   Mem stack_ptr = ptr(_pass._sp.as<Gp>(), arg.stack_offset());
 
   if (reg.is_gp()) {
+    // Store exactly the bytes of the argument - its stack slot can be narrower than the register that holds the value
+    // (Apple packs stack arguments to their natural size, an immediate is always materialized in a 64-bit register).
+    if (TypeUtils::is_int(arg.type_id())) {
+      switch (TypeUtils::size_of(arg.type_id())) {
+        case 1: return cc().strb(reg.as<Gp>().w(), stack_ptr);
+        case 2: return cc().strh(reg.as<Gp>().w(), stack_ptr);
+        case 4: return cc().str(reg.as<Gp>().w(), stack_ptr);
+        default: break;
+      }
+    }
     return cc().str(reg.as<Gp>(), stack_ptr);
   }
 
